@@ -107,5 +107,6 @@ UNIT = Unit(
         get_line_info,
     ],
     serves=["C13", "C03", "C19"],
+    carry_facts_into_loops=False,   # this unit's proofs need isolated loops (loop `ensures` clauses, or the solver runs out of resources with the wider context)
     description="util::CharCounter (byte index <-> line/column) and diagn::Span arithmetic",
 )
